@@ -14,6 +14,7 @@ them first.)
 import Biogo.Properties.C04_bufio
 import Biogo.Properties.C04_seq
 import Biogo.Properties.C04_feat
+import Biogo.Proofs.SeqLazy
 
 namespace Biogo.Properties.C04_bufio
 open Biogo.Go.Bufio
@@ -74,6 +75,67 @@ theorem bed_over_bufio (n : Nat) (bs : Bytes) (pol : Nat → Nat → Nat) (wd : 
 theorem gff_over_bufio (o : Biogo.Gff.Oracles) (bs : Bytes) (pol : Nat → Nat → Nat) (wd : Bool) (hp : Progressing pol) :
     gffOverBufio o (fileSrc bs pol wd) = Biogo.Gff.readAll o bs := by
   simp only [gffOverBufio, processedLines_eq bs pol wd hp, Biogo.Gff.readAll, Biogo.Gff.trimmedLines]
+
+/-! ### the loops of `Read` run lazily
+
+`…OverBufio` drains the lines first.  The Go loops pull one line at a time while they work; that
+shape is `Biogo.Go.Bufio.runLazy body atErr` (one `nextLine` — the `ReadLine`/`append`/`isPrefix`
+part — per iteration, `body` on a complete line, `atErr` when `ReadLine` returns an error).
+`runLazy_drained` proves for **every** `body`/`atErr` that the lazy run equals the run over the
+drained view `lineInput` and leaves a reader whose remaining input is what the drained run has
+left; instantiated with the bodies of the two readers (`lazyBody`, `lazyAtErr`: the code after
+`if isPrefix { continue }`, resp. inside `if err != nil`) it gives: -/
+
+/-- **FASTQ, one call**: `fastq.Reader.Read` run lazily over any reader between calls is the model's
+    `read` on the line-level view of the remaining input; the reader it leaves views the rest. -/
+theorem fastq_read_lazy (cfg : Biogo.Fastq.Cfg) (b : Reader) (hinv : Inv b) (hfin : b.src.fin = .eof) :
+    ∃ ret rest p b',
+      Biogo.Fastq.read cfg (Biogo.Spec.Bufio.lineInput b.size b.src.withData b.stream).1
+        (Biogo.Spec.Bufio.lineInput b.size b.src.withData b.stream).2 = .ok (ret, rest, p) ∧
+      Biogo.Fastq.readLazy cfg b = some (.ok ret, b') ∧ Inv b' ∧ SameCfg b b' ∧
+      Biogo.Spec.Bufio.lineInput b'.size b'.src.withData b'.stream = (rest, p) :=
+  Biogo.Fastq.readLazy_spec cfg b hinv hfin
+
+/-- **FASTQ, the whole history**: every call run lazily over `bufio.NewReader(rd)`, any chunking —
+    the history is `Biogo.Fastq.readAll`. -/
+theorem fastq_lazy_image (cfg : Biogo.Fastq.Cfg) (bs : Bytes) (pol : Nat → Nat → Nat) (wd : Bool)
+    (hp : Progressing pol) :
+    Biogo.Fastq.readAllLazy cfg (Biogo.Go.Bytes.lineCount bs + 1) (newReader (fileSrc bs pol wd))
+      = Biogo.Fastq.readAll cfg wd bs := by
+  have hinv : Inv (newReader (fileSrc bs pol wd)) := inv_newReaderSize _ _ hp (by show Err.eof ≠ Err.bufferFull; decide)
+  rw [Biogo.Fastq.readAllLazy_eq cfg _ _ hinv rfl]
+  have : Biogo.Spec.Bufio.lineInput (newReader (fileSrc bs pol wd)).size (newReader (fileSrc bs pol wd)).src.withData
+      (newReader (fileSrc bs pol wd)).stream = Biogo.Go.Bytes.readLineInput wd bs := by
+    rw [← lineInput_default]; rfl
+  rw [this]
+  rfl
+
+/-- **FASTA, one call** (any user-set prefixes, any persistent state `st`) -/
+theorem fasta_read_lazy (cfg : Biogo.Fasta.Cfg) (st : Biogo.Fasta.St) (b : Reader) (hinv : Inv b)
+    (hfin : b.src.fin = .eof) :
+    ∃ ret st' rest b',
+      Biogo.Fasta.read cfg st ((Biogo.Spec.Bufio.lineInput b.size b.src.withData b.stream).1 ++
+        Biogo.Fasta.optLine (Biogo.Spec.Bufio.lineInput b.size b.src.withData b.stream).2) = .ok (ret, st', rest) ∧
+      Biogo.Fasta.readLazy cfg st b = some (.ok (ret, st'), b') ∧ Inv b' ∧ SameCfg b b' ∧
+      rest = (Biogo.Spec.Bufio.lineInput b'.size b'.src.withData b'.stream).1 ++
+        Biogo.Fasta.optLine (Biogo.Spec.Bufio.lineInput b'.size b'.src.withData b'.stream).2 :=
+  Biogo.Fasta.readLazy_spec cfg st b hinv hfin
+
+/-- **FASTA, the whole history**, lazily over `bufio.NewReader(rd)`, any chunking, any prefixes —
+    the history is `Biogo.Fasta.readAll`. -/
+theorem fasta_lazy_image (cfg : Biogo.Fasta.Cfg) (bs : Bytes) (pol : Nat → Nat → Nat) (wd : Bool)
+    (hp : Progressing pol) :
+    Biogo.Fasta.readAllLazy cfg ((Biogo.Go.Bytes.splitLines bs).length + 1) {} (newReader (fileSrc bs pol wd))
+      = Biogo.Fasta.readAll cfg bs := by
+  have hinv : Inv (newReader (fileSrc bs pol wd)) := inv_newReaderSize _ _ hp (by show Err.eof ≠ Err.bufferFull; decide)
+  rw [Biogo.Fasta.readAllLazy_eq cfg _ _ _ hinv rfl]
+  have : (Biogo.Spec.Bufio.lineInput (newReader (fileSrc bs pol wd)).size (newReader (fileSrc bs pol wd)).src.withData
+      (newReader (fileSrc bs pol wd)).stream).1 ++ Biogo.Fasta.optLine (Biogo.Spec.Bufio.lineInput
+        (newReader (fileSrc bs pol wd)).size (newReader (fileSrc bs pol wd)).src.withData
+        (newReader (fileSrc bs pol wd)).stream).2 = Biogo.Go.Bytes.splitLines bs :=
+    lineInput_all_lines 4096 (by decide) wd bs
+  rw [this]
+  rfl
 
 /-! ### C04 at the byte level -/
 
